@@ -78,7 +78,11 @@ fn malformed<R: Rng>(rng: &mut R, src: &str, i: usize) -> (String, String, &'sta
         10 => (format!("{src}<<A as Tr>::X>"), format!("::ext::T{i}"), "InvalidFromType"),
         11 => ("<empty>".to_string(), format!("::ext::T{i}"), "EmptySubstitutePath"),
         12 => (src.to_string(), "<::empty>".to_string(), "EmptySubstitutePath"),
-        0 => (src.to_string(), format!("ext::T{i}"), "ExpectedAbsolutePath"),
+        0 => {
+            // relative targets, among them first segments that merely begin like `crate`
+            let first = ["ext", "crate_utils", "crates", "crate2", "self", "super", "krate", "Crate"][rng.gen_range(0..8)];
+            (src.to_string(), format!("{first}::T{i}"), "ExpectedAbsolutePath")
+        }
         1 => (format!("{src}(A)"), format!("::ext::T{i}"), "ExpectedAngleBracketGenerics"),
         2 => (src.to_string(), format!("::ext::T{i}(A)"), "ExpectedAngleBracketGenerics"),
         3 => (format!("{src}<'a>"), format!("::ext::T{i}"), "InvalidFromType"),
